@@ -21,4 +21,5 @@ for name in sorted(os.listdir(root)):
     else:
         c = ", ".join(caught)
     extra = (" — " + m["strengthening"]) if m.get("strengthening") else ""
-    print(f"| `{name}` | {m['property']} | {needs} | {c}{extra} |")
+    esc = lambda x: x.replace("|", "\\|")
+    print(f"| `{name}` | {m['property']} | {esc(needs)} | {esc(c + extra)} |")
